@@ -1016,6 +1016,36 @@ def spec_get_keys(node, pool):
     return out
 
 
+def _spec_set(node, pool, path, new):
+    """the property text for one key: `a__b__c = v` replaces parameter (or named component) `c` of the component
+    reached through `a`, `b`, and nothing else.  In place; False when the situation is outside the text
+    (duplicate component names, a name that is both parameter and component)."""
+    if node[0] != "e":
+        return False
+    spec = pool.get(node[2], {})
+    nm = spec.get("named")
+    items = node[3][nm][1] if nm and nm in node[3] and node[3][nm][0] == "n" else []
+    names = [k for k, _ in items]
+    if len(set(names)) != len(names) or set(names) & set(node[3]):
+        return False
+    head = path[0]
+    if len(path) == 1:
+        if head in node[3]:
+            node[3][head] = new
+            return True
+        for it in items:
+            if it[0] == head:
+                it[1] = new
+                return True
+        return False
+    if head in node[3]:
+        return _spec_set(node[3][head], pool, path[1:], new)
+    for it in items:
+        if it[0] == head:
+            return _spec_set(it[1], pool, path[1:], new)
+    return False
+
+
 def oracle_tree(case, real):
     """Property clauses that can be read off a single history without the model."""
     fails = []
@@ -1045,12 +1075,10 @@ def oracle_tree(case, real):
         try:
             pool = pool_classes()
             k, _, vs = case["ops"][0][4:].partition("=")
-            before = spec_get_keys(parse_tree(case["tree"]), pool)
-            newv = parse_tree(vs)
-            if k in before and newv[0] == "a" and before[k].startswith("a"):
+            tree = parse_tree(case["tree"])
+            if k in spec_get_keys(tree, pool) and _spec_set(tree, pool, k.split("__"), parse_tree(vs)):
+                want = spec_get_keys(tree, pool)
                 got = dict(kv.split("=", 1) for kv in outs[1].split(","))
-                want = dict(before)
-                want[k] = "a%d" % newv[1]
                 if got != want:
                     diff = sorted(set(got) ^ set(want)) or sorted(x for x in got if got[x] != want.get(x))
                     fails.append(("%s:nested-set" % root, "set_params(%s=...) on %s changed / missed: %s" % (k, root, ",".join(diff[:5]))))
